@@ -1,6 +1,6 @@
 //go:build verif
 
-package vlib
+package vcore
 
 import (
 	"fmt"
